@@ -6,7 +6,7 @@ import time
 import z3
 
 from . import smt
-from .core import (Unsupported, ContractError, PathEnd, PyExc, Return, Break,
+from .core import (Unsupported, ContractError, PathEnd, PyExc, Return, Break, has_quant,
                    Continue, VExc, VFunc, VClass, VExternal, PyList, coerce,
                    Path, Obligation, World)
 from .shapes import (SV, SNone, SOpt, SRef, STup, SMap, SBytes, SStr, Value,
@@ -333,6 +333,9 @@ def apply_contract(ex, callee, fn, args, kwargs):
     pre = P.snapshot()
     sub.old_env = env
     havoc_modifies(ex, callee.modifies, sub)
+    # objects the callee allocates get ids at or above the caller's current
+    # allocation mark; fresh(x) in the callee's postcondition means exactly that
+    sub.fresh_base = P.bump_alloc()
     outcomes = ['return'] + sorted(callee.raises)
     k = P.choose(len(outcomes))
     if k == 0:
@@ -348,8 +351,9 @@ def apply_contract(ex, callee, fn, args, kwargs):
             P.assume(sub.spec_bool(expr, env2, pre))
         return result
     cls = outcomes[k]
-    exc = VExc(cls, [])
+    exc = VExc(cls, [], {'errno': OptS(IntS).fresh('errno')})
     env2 = dict(env)
+    env2['exc'] = exc
     for name, expr in callee.lets.items():
         env2[name] = sub.spec_eval(expr, env2, pre)
     for lab, expr in callee.raises[cls].items():
@@ -423,7 +427,11 @@ def bind_inputs(ex, contract, node):
                 env[p] = v
                 ex.inputs[p] = v
         elif p in defaults:
-            env[p] = ex.ev(defaults[p])
+            ex.class_scope = True
+            try:
+                env[p] = ex.ev(defaults[p])
+            finally:
+                ex.class_scope = False
         else:
             raise ContractError('%s: parameter %s has no declared shape' % (contract.qualname, p))
     if a.vararg is not None:
@@ -483,7 +491,7 @@ def run_one_path(ex, contract, node, res):
     # vacuity: the precondition must be satisfiable
     if not P.prefix and not getattr(res, '_pre_checked', False):
         res._pre_checked = True
-        v, _, _ = smt.check(P.pc, fallback=False)
+        v, _, _ = smt.check([f for f in P.pc if not has_quant(f)], timeout_ms=3000, fallback=False)
         ob = Obligation('vacuity.pre_satisfiable',
                         'proved' if v == 'sat' else ('refuted' if v == 'unsat' else 'unknown'),
                         'z3', [], None, 'requires must be satisfiable')
@@ -550,16 +558,14 @@ def run_one_path(ex, contract, node, res):
         frame_obligations(ex, contract.modifies, pre, 'frame', ex)
     finally:
         ex.scopes = saved_scopes
-    # canary: the end of this path must be reachable (pc satisfiable)
-    v, _, _ = smt.check(P.pc, fallback=False)
-    if v == 'unsat':
-        ob = Obligation('vacuity.path_consistent', 'refuted', 'z3', list(P.taken), None,
-                        'path condition became inconsistent after assuming proved clauses')
-        ob.seconds = 0.0
-        # an inconsistent pc after *failed* obligations is expected (we assume
-        # the clause after reporting it); only flag it when nothing was refuted
-        if all(o.verdict == 'proved' for o in P.obligations):
-            P.obligations.append(ob)
+    # canary: at least one path of every function must end with a satisfiable
+    # path condition (feasibility is decided on the quantifier-free part, so
+    # an individual path may turn out infeasible here: that is not an error)
+    v, _, _ = smt.check([f for f in P.pc if not has_quant(f)], timeout_ms=3000, fallback=False)
+    if v == 'unsat' and all(o.verdict == 'proved' for o in P.obligations):
+        res.infeasible += 1
+    else:
+        res.live_paths = getattr(res, 'live_paths', 0) + 1
 
 
 def assume_instances(ex, contract, inst, env=None, old_store=None):
@@ -604,7 +610,7 @@ def verify_lemma(world, lemma):
             ex.inputs[name] = v
         for a in lemma.assumes:
             P.assume(ex.spec_bool(a, env, P.snapshot()))
-        v, _, _ = smt.check(P.pc, fallback=False)
+        v, _, _ = smt.check([f for f in P.pc if not has_quant(f)], timeout_ms=3000, fallback=False)
         ob = Obligation('vacuity.assumptions_satisfiable',
                         'proved' if v == 'sat' else ('refuted' if v == 'unsat' else 'unknown'), 'z3', [])
         ob.seconds = 0.0
